@@ -1388,6 +1388,14 @@ def kkt_chol2(G, dims, A, mnl = 0):
 
     def factor(W, H = None, Df = None):
 
+        if not F['firstcall'] and mnl and type(Df) is spmatrix and \
+            type(F['Dfs']) is spmatrix and (len(Df) != len(F['Dfs']) or
+            list(Df.I) != list(F['Dfs'].I) or 
+            list(Df.J) != list(F['Dfs'].J)):
+            # The sparsity pattern of Df has changed: start over.
+            F['firstcall'] = True
+            F['singular'] = False
+
         if F['firstcall']:
             if type(G) is matrix: 
                 F['Gs'] = matrix(0.0, G.size) 
